@@ -1613,6 +1613,10 @@ static string opLts(const vector<string>& a)
 }
 
 // ---------------------------------------------------------------- dispatcher
+// ---------------------------------------------------------------- utility classes under the algorithms (full-stack tasks T31, T32, …)
+#include "ops/op_ordvec.inc"
+#include "ops/op_achain.inc"
+
 // ---------------------------------------------------------------- API sweep (C20): every remaining public entry point of the four
 // encodings is called once on well-formed operands; each call may complete ('R'), throw NotImplementedException ('N') or
 // another std::exception ('E') – anything else (sanitizer report, crash) ends the process and is the finding
@@ -1745,6 +1749,8 @@ static string runCase(const string& kind, const vector<string>& args)
 	if (kind == "bddtd") return opBddToTd(args);
 	if (kind == "mth" || kind == "mthrc") return opMtHist(args);
 	if (kind == "apisweep") return opApiSweep(args);
+	if (kind == "ordvec") return opOrdvec(args);
+	if (kind == "achain") return opAchain(args);
 	return "BADKIND";
 }
 
